@@ -80,9 +80,23 @@ def main():
                 for m in missing:
                     cls, name = m.split("::")
                     mod = cls.rsplit(".", 1)[0].replace(".", "/") + ".py"
-                    r, o = sh(["/venv/bin/python", "-m", "pytest", "-q", "-p", "no:cacheprovider", "%s::%s::%s" % (mod, cls.rsplit(".", 1)[1], name)], cwd=wt, timeout=900)
-                    if r != 0:
-                        still.append(m)
+                    tid = "%s::%s::%s" % (mod, cls.rsplit(".", 1)[1], name)
+                    ok_alone = False
+                    for _try in range(3):
+                        r, o = sh(["/venv/bin/python", "-m", "pytest", "-q", "-p", "no:cacheprovider", tid], cwd=wt, timeout=900)
+                        if r == 0:
+                            ok_alone = True
+                            break
+                    if not ok_alone:
+                        # load-flaky?  compare with the unpatched tree at the same commit, right now
+                        clean = "/tmp/seed/sv-clean-%s" % pid
+                        sh(["git", "-C", "/repo", "worktree", "add", "-q", "--detach", clean, sh(["git", "-C", wt, "rev-parse", "HEAD"])[1].strip()])
+                        fails = sum(1 for _k in range(2) if sh(["/venv/bin/python", "-m", "pytest", "-q", "-p", "no:cacheprovider", tid], cwd=clean, timeout=900)[0] != 0)
+                        sh(["git", "-C", "/repo", "worktree", "remove", "--force", clean])
+                        if fails == 2:
+                            result.setdefault("suite_flaky_on_clean_tree_too", []).append(m)
+                        else:
+                            still.append(m)
                 result["suite_missing_first_run"] = missing
                 result["suite_missing_after_rerun"] = still
                 result["suite_ok"] = not still
